@@ -153,7 +153,8 @@ def hostile_names(newline: bool = True) -> st.SearchStrategy[str]:
 
 def names(alpha: str) -> st.SearchStrategy[str]:
     if alpha == "plain":
-        return st.one_of(*([fs.plain_names()] * 9), fs._long(fs.plain_names(), fills=("L", "x", "-", "_0", ".")))
+        longs = fs._long(fs.plain_names(), fills=("L", "x", "-", "_0", "."))
+        return st.tuples(st.integers(0, 9), fs.plain_names(), longs).map(lambda t: t[2] if t[0] == 0 else t[1])
     longs = fs._long(st.one_of(fs.plain_names(), hostile_names(False)))
     return st.tuples(st.integers(0, 12), hostile_names(), longs).map(lambda t: t[2] if t[0] == 0 else t[1]).filter(_ok_name)
 
@@ -241,27 +242,40 @@ def _ops(alpha: str, thorough: bool):
     nm = names(alpha)
     content = st.fixed_dictionaries({"k": st.sampled_from(CONTENT_KINDS), "seed": st.integers(0, 99),
                                      "len": st.one_of(st.integers(0, 40), st.sampled_from([0, 1, 100, 5000] + ([65536, 70000] if thorough else [])))})
-    query = st.fixed_dictionaries({"op": st.sampled_from(QUERY_OPS), "t": _target(nm, 0.2)})
-    mkdir = st.fixed_dictionaries({
-        "op": st.just("mkdir"), "t": _target(nm, 0.7, "dir"), "n2": st.one_of(st.none(), st.none(), st.none(), fs.plain_names()),
-        "mode": st.sampled_from([0o777, 0o777, 0o777, 0o777, 0o755, 0o700]),
-        "parents": st.booleans(), "exist_ok": st.sampled_from([True, True, False])})
-    write = st.fixed_dictionaries({"op": st.just("write_text"), "t": _target(nm, 0.6, "file"), "content": content})
-    read = st.fixed_dictionaries({"op": st.just("read_text"), "t": _target(nm, 0.1, "file"),
-                                  "n": st.sampled_from([-1, -1, -1, 65536, 65536, 1, 3, 7])})
-    globop = st.fixed_dictionaries({"op": st.just("glob"), "t": _target(nm, 0.0, "dir"),
-                                    "pat": st.sampled_from(GLOB_KINDS), "i": st.integers(0, 63)})
-    walk = st.fixed_dictionaries({"op": st.just("walk"), "t": _target(nm, 0.0, "dir"),
-                                  "top_down": st.sampled_from([True, True, True, False]),
-                                  "follow": st.sampled_from([True, True, True, False]),
-                                  "all": st.sampled_from([False, False, True])})
+    # NB: st.one_of drops repeated *identical* strategy objects, so weights are expressed with distinct objects
+    def query(op):
+        return st.fixed_dictionaries({"op": st.just(op), "t": _target(nm, 0.2)})
+
+    def mkdir():
+        return st.fixed_dictionaries({
+            "op": st.just("mkdir"), "t": _target(nm, 0.7, "dir"), "n2": st.tuples(st.integers(0, 3), fs.plain_names()).map(lambda t: t[1] if t[0] == 0 else None),
+            "mode": st.sampled_from([0o777, 0o777, 0o777, 0o777, 0o755, 0o700]),
+            "parents": st.booleans(), "exist_ok": st.sampled_from([True, True, False])})
+
+    def write():
+        return st.fixed_dictionaries({"op": st.just("write_text"), "t": _target(nm, 0.6, "file"), "content": content})
+
+    def read():
+        return st.fixed_dictionaries({"op": st.just("read_text"), "t": _target(nm, 0.1, "file"),
+                                      "n": st.sampled_from([-1, -1, -1, 65536, 65536, 1, 3, 7])})
+
+    def globop():
+        return st.fixed_dictionaries({"op": st.just("glob"), "t": _target(nm, 0.0, "dir"),
+                                      "pat": st.sampled_from(GLOB_KINDS), "i": st.integers(0, 63)})
+
+    def walk():
+        return st.fixed_dictionaries({"op": st.just("walk"), "t": _target(nm, 0.0, "dir"),
+                                      "top_down": st.sampled_from([True, True, True, False]),
+                                      "follow": st.sampled_from([True, True, True, False]),
+                                      "all": st.sampled_from([False, False, True])})
+
     rmtree = st.fixed_dictionaries({"op": st.just("rmtree"), "t": _target(nm, 0.15)})
     symlink = st.fixed_dictionaries({"op": st.just("symlink_to"), "t": _target(nm, 0.85), "to": _target(nm, 0.2),
                                      "rel": st.booleans()})
     hardlink = st.fixed_dictionaries({"op": st.just("hardlink_to"), "t": _target(nm, 0.85), "to": _target(nm, 0.1, "file")})
     chmod = st.fixed_dictionaries({"op": st.just("chmod"), "t": _target(nm, 0.1), "mode": st.integers(0, len(FILE_MODES) - 1)})
-    one = st.one_of(query, query, query, query, query, query, mkdir, mkdir, write, write, read, read, globop, globop,
-                    walk, walk, rmtree, symlink, hardlink, chmod)
+    one = st.one_of(*[query(o) for o in QUERY_OPS], mkdir(), mkdir(), write(), write(), read(), read(), globop(), globop(),
+                    walk(), walk(), rmtree, symlink, hardlink, chmod)
     return st.lists(one, min_size=1, max_size=25 if thorough else 15)
 
 
